@@ -326,7 +326,7 @@ pub fn run_encoders(_cases_path: &str, report_path: &str, opts: &[String]) {
     let mut inputs: Vec<Vec<u8>> = vec![vec![]];
     for a in 0..=255u8 { inputs.push(vec![a]); }
     for a in 0..=255u8 { for b in 0..=255u8 { inputs.push(vec![a, b]); } }
-    if thorough { for a in (0..=255u8).step_by(1) { for b in 0..=255u8 { for c in (0..=255u8).step_by(5) { inputs.push(vec![a, b, c]); } } } }
+    if thorough { for a in (0..=255u8).step_by(1) { for b in 0..=255u8 { for c in (0..=255u8).step_by(51) { inputs.push(vec![a, b, c]); } } } }
     else { for _ in 0..4000 { inputs.push(vec![rng.gen(), rng.gen(), rng.gen()]); } }
     for v in [0u8, 1, 0x21, 0x75, 0x7a, 0xff] { for n in (1..=300usize).step_by(if thorough { 1 } else { 7 }) { inputs.push(vec![v; n]); } }            // single-value runs
     let sizes: Vec<usize> = if thorough { vec![3, 4, 5, 7, 8, 9, 255, 256, 4095, 4096, 4097, 65535, 65536] } else { vec![3, 4, 5, 7, 8, 9, 255, 256, 4097, 65536] };
